@@ -139,7 +139,20 @@ def planted(rng, g):
         eq = ["eq", vS(q1), t] if rng.random() < 0.5 else ["eq", t, vS(q1)]
         return [rng.choice(["exists", "exists", "forall"]), [[q1, U("S")]], ["and", eq, ["fl", BS, vS(q1)], body]]
     if r < 0.7:       # a free variable of the value is rebound inside the body (capture)
-        inner = ["exists", [[q2, U("S")]], ["fl", Q2, vS(q1), vS(q2)]]
+        inner = [rng.choice(["exists", "forall"]), [[q2, U("S")]], ["fl", Q2, vS(q1), vS(q2)]]
+        # … possibly several levels down: under other quantifiers / connectives (the capture check must look
+        # through every level, seeded change C11-2 stopped at the first quantifier)
+        q3 = f"q{rng.randrange(7, 10)}"
+        for _ in range(rng.randrange(0, 3)):
+            w = rng.random()
+            if w < 0.45:
+                inner = [rng.choice(["exists", "forall"]), [[q3, U("S")]],
+                         [rng.choice(["and", "or"]), ["fl", Q2, vS(q3), vS(q1)], inner]]
+                q3 = q3 + "x"
+            elif w < 0.6:
+                inner = ["not", inner]
+            else:
+                inner = [rng.choice(["and", "or", "implies"]), ["fl", BS, vS(q1)], inner]
         e = ["exists", [[q1, U("S")]], ["and", ["eq", vS(q1), vS(q2)], inner]]
         return ["forall", [[q2, U("S")]], e] if rng.random() < 0.7 else e
     if r < 0.8:       # two bound variables, chains x == y, y == o
